@@ -110,8 +110,17 @@ impl Run {
             written_by: HashMap::new(),
         };
         let list_seed = spec.get("list_seed").and_then(|v| v.as_u64());
+        let backend = spec.get("backend").and_then(|v| v.as_str()).map(|s| s.to_string());
+        let tmpdir = spec.get("tmpdir").and_then(|v| v.as_str()).unwrap_or("/verif/out/tmp/hist").to_string();
         for r in 0..nrep {
-            let mut st = Store::new_own();
+            let mut st = match &backend {
+                Some(b) => {
+                    let dir = format!("{}/run{}_r{}", tmpdir, id, r);
+                    let _ = std::fs::remove_dir_all(&dir);
+                    Store::new_inner(crate::kv::make_stack(b, &dir).expect("backend stack"))
+                }
+                None => Store::new_own(),
+            };
             st.list_seed = list_seed.map(|s| s.wrapping_add(r as u64));
             let store = Arc::new(Mutex::new(st));
             let melda = Melda::new(new_adapter(&store)).expect("open on empty storage");
@@ -251,6 +260,9 @@ impl Run {
     /// The process stops after the k-th stored write of the operation that just ran: storage is
     /// rolled back to that point and the replica is gone until it is reopened.
     fn crash_to(&mut self, r: usize, pre: &BTreeMap<String, Arc<Vec<u8>>>, from: usize, k: usize) {
+        if !self.stores[r].lock().unwrap().is_own() {
+            return;
+        }
         let writes: Vec<(String, Arc<Vec<u8>>)> = {
             let s = self.stores[r].lock().unwrap();
             s.log[from..].iter().filter(|w| w.outcome == "stored").map(|w| (w.key.clone(), w.bytes.clone())).collect()
@@ -486,7 +498,7 @@ impl Run {
                 }
                 let k = cand[op["n"].as_u64().unwrap_or(0) as usize % cand.len()].clone();
                 let bytes = src[&k].clone();
-                self.stores[r].lock().unwrap().own_mut().insert(k.clone(), bytes);
+                self.stores[r].lock().unwrap().insert_item(&k, bytes);
                 let out = Outcome { kind: "ok", msg: String::new(), val: Value::Null };
                 self.emit("Copy", r, json!({"s": rname(s), "key": tok(&k)}), &out, json!({}));
             }
@@ -564,7 +576,7 @@ impl Run {
                     if s == r || !src.contains_key(&key) || self.items_of(r).contains_key(&key) {
                         return;
                     }
-                    self.stores[r].lock().unwrap().own_mut().insert(key.clone(), src[&key].clone());
+                    self.stores[r].lock().unwrap().insert_item(&key, src[&key].clone());
                     let out = Outcome { kind: "ok", msg: String::new(), val: Value::Null };
                     self.emit("Copy", r, json!({"s": rname(s), "key": tok(&key)}), &out, json!({}));
                 } else {
@@ -666,7 +678,7 @@ impl Run {
                 let limit = op.get("limit").and_then(|v| v.as_u64()).unwrap_or(u64::MAX) as usize;
                 for k in keys.into_iter().take(limit) {
                     let bytes = src[&k].clone();
-                    self.stores[r].lock().unwrap().own_mut().insert(k.clone(), bytes);
+                    self.stores[r].lock().unwrap().insert_item(&k, bytes);
                     let out = Outcome { kind: "ok", msg: String::new(), val: Value::Null };
                     self.emit("Copy", r, json!({"s": rname(s), "key": tok(&k)}), &out, json!({}));
                     if op.get("refresh_each").and_then(|v| v.as_bool()).unwrap_or(true) {
@@ -684,6 +696,9 @@ impl Run {
 
     /// Driver-level faults on stored items (C10).
     fn damage(&mut self, r: usize, op: &Value) {
+        if !self.stores[r].lock().unwrap().is_own() {
+            return;
+        }
         let items = self.items_of(r);
         let keys: Vec<String> = items.keys().cloned().collect();
         let kind = op["kind"].as_str().unwrap_or("flip");
@@ -791,6 +806,11 @@ pub fn run_spec(spec: Value, timeout: Duration) -> RunResult {
                     }
                 }
             }
+            if let (Some(_), Some(t)) = (spec2.get("backend").and_then(|v| v.as_str()), spec2.get("tmpdir").and_then(|v| v.as_str())) {
+                for r in 0..nrep {
+                    let _ = std::fs::remove_dir_all(format!("{}/run{}_r{}", t, id, r));
+                }
+            }
             if let Ok(dir) = std::env::var("MVH_DUMP") {
                 for (r, st) in run.stores.iter().enumerate() {
                     let d = format!("{}/run{}_r{}", dir, id, r);
@@ -852,7 +872,7 @@ pub fn random_spec(run: u64, seed: u64, profile: &str) -> Value {
             89..=90 => json!({"op": "reload", "r": r}),
             91..=92 => json!({"op": "snapshot", "r": r}),
             93..=95 => json!({"op": "reopen", "r": r}),
-            96..=97 if nrep > 1 => json!({"op": "copy", "r": r, "s": s, "n": p.below(8)}),
+            96..=97 if nrep > 1 && profile != "multi" => json!({"op": "copy", "r": r, "s": s, "n": p.below(8)}),
             _ => json!({"op": "commit", "r": r, "seed": p.next()}),
         };
         ops.push(op);
@@ -913,6 +933,53 @@ pub fn random_spec(run: u64, seed: u64, profile: &str) -> Value {
         }
         return json!({"run": run, "replicas": nrep, "pool": *p.pick(&[1usize, 2, 4, 16]), "ops": ops, "label": format!("random:{}:{}", profile, seed),
             "floats": false, "nasty": false, "universe": 5, "list_seed": if p.chance(1, 2) { json!(p.next()) } else { Value::Null }});
+    }
+    if profile == "travel" {
+        // forks below the root, merges, then time travel to every recorded head set and back
+        ops.clear();
+        let nrep = 2 + p.below(2);
+        let pre = 1 + p.below(3);
+        for _ in 0..pre {
+            ops.push(json!({"op": "edit", "r": 0, "seed": p.next()}));
+            ops.push(json!({"op": "commit", "r": 0, "seed": p.next()}));
+        }
+        for r in 1..nrep {
+            ops.push(json!({"op": "sync", "r": r, "s": 0}));
+        }
+        let rounds = 1 + p.below(3);
+        for _ in 0..rounds {
+            for r in 0..nrep {
+                for _ in 0..(1 + p.below(2)) {
+                    ops.push(json!({"op": "edit", "r": r, "seed": p.next(), "arrays": p.chance(1, 2)}));
+                    ops.push(json!({"op": "commit", "r": r, "seed": p.next()}));
+                }
+            }
+            for r in 1..nrep {
+                ops.push(json!({"op": "sync", "r": 0, "s": r}));
+            }
+            if p.chance(1, 2) {
+                ops.push(json!({"op": "edit", "r": 0, "seed": p.next()}));
+                ops.push(json!({"op": "commit", "r": 0, "seed": p.next()}));
+            }
+        }
+        for r in 1..nrep {
+            ops.push(json!({"op": "sync", "r": 0, "s": r}));
+        }
+        let who = p.below(nrep);
+        for hs in 0..12 {
+            ops.push(json!({"op": "reload_until", "r": who, "hs": hs}));
+            if p.chance(1, 3) {
+                ops.push(json!({"op": "reload", "r": who}));
+            }
+            if p.chance(1, 6) {
+                ops.push(json!({"op": "edit", "r": who, "seed": p.next()}));
+                ops.push(json!({"op": "commit", "r": who, "seed": p.next()}));
+            }
+        }
+        ops.push(json!({"op": "reload", "r": who}));
+        ops.push(json!({"op": "sync", "r": who, "s": (who + 1) % nrep}));
+        return json!({"run": run, "replicas": nrep, "pool": *p.pick(&[1usize, 2, 4, 16]), "ops": ops, "label": format!("random:{}:{}", profile, seed),
+            "floats": false, "nasty": p.chance(1, 2), "universe": 6, "list_seed": if p.chance(1, 2) { json!(p.next()) } else { Value::Null }});
     }
     if profile == "deliver" {
         // two writers build a branching history, a third replica receives it file by file
